@@ -422,3 +422,22 @@ def run(index, rep, tier):
             rep.check(False, "R13.9", ptn.qualname, "label matching decided by the attached-namespace mode", fn_where(ptn, t.stmt), "",
                       "_parse_taxon_namespaces matches <otu> labels against existing members only under `%s`: the file iterator and an attached data set set that attribute, TreeList.get / read and Tree.get pass the caller's namespace through a factory instead, so on those routes every read adds the document's taxa again (4 -> 8 -> 12 taxa for three reads into one namespace) while the other routes re-use them - trees of one source end up on different taxa depending on the route" % norm(t.ast)[:60])
         rep.ob("R13.9", fn_where(ptn), "_parse_taxon_namespaces: %d test(s) on attached_taxon_namespace, label map filled at %d place(s)" % (len(tests), len(fills)), not tests)
+
+    # ---- R13.10 the NTAX guard counts what the statement declares
+    with rep.section("R13.10"):
+        rep.rule("R13.10", "NEXUS: whether a TAXLABELS statement is refused for declaring more labels than NTAX does not depend on the reading route or on what the namespace held before: the guard neither consults self.attached_taxon_namespace nor compares the size of the whole namespace (a namespace shared across calls already holds other taxa)")
+        ptl = index.function("dendropy.dataio.nexusreader.NexusReader._parse_taxlabels_statement")
+        g = cfg_of(ptl)
+        guards = [t for t in g.nodes if t.kind == "test" and "self._file_specified_ntax" in norm(t.ast) and isinstance(t.ast, ast.Compare)]
+        if not guards:
+            raise AnalysisError("R13.10: the NTAX guard of _parse_taxlabels_statement was not recognised")
+        nsparam = [p_ for p_ in ptl.params if "namespace" in p_]
+        for t in guards:
+            # the whole condition the raise depends on: the If statement's test
+            full = t.stmt.test if isinstance(t.stmt, ast.If) else t.ast
+            txt = norm(full)
+            route = "attached_taxon_namespace" in txt
+            whole = any(isinstance(c, ast.Call) and call_name(c) == "len" and c.args and any(norm(c.args[0]) == p_ or norm(c.args[0]).startswith(p_ + ".") for p_ in nsparam) for c in ast.walk(full))
+            rep.check(not route and not whole, "R13.10", ptl.qualname, "NTAX guard depends on %s" % ("the attached-namespace mode" if route else "the size of the whole namespace"), fn_where(ptl, t.stmt), "the NTAX guard counts the labels of the statement",
+                      "_parse_taxlabels_statement refuses a label under `%s`: the size of the whole namespace includes taxa that were there before the document, and the test is switched off only in attached mode - TreeList.get / Tree.get with a shared namespace that already holds NTAX or more other taxa raise TooManyTaxaError, the file iterator and DataSet.get read the same source without complaint" % txt[:110])
+        rep.floor("R13.10", "NTAX guards in _parse_taxlabels_statement", 1, len(guards))
